@@ -35,12 +35,31 @@ def project(case, line, keys):
     whether the page carried an error prefix (then the first output line is compared by presence only)."""
     return line
 
-def compare_lines(impl, model, keys):
-    """Compare one case. Returns None if equal on the projection, else a description."""
+def compare_lines(impl, model, keys, long_lived=False):
+    """Compare one case. Returns None if equal on the projection, else a description.
+
+    long_lived: the case is served by one engine object. The Go renderer mutates its Menu/Page/Sizer objects in
+    place even when a render then fails (WithDispose, page count, template suffix), while the model's render
+    functions return the updated renderer only on success. After a failed Flush the long-lived engine's pages
+    are therefore not compared (fields o, f) until the next move re-creates the renderer (path changes); the
+    same history in persisted mode is compared in full, and the divergence of the two modes in exactly this
+    situation is the open finding C07-after-failed-request."""
     ra = impl.split(' # '); rb = model.split(' # ')
     if len(ra) != len(rb):
         return 'request count %d vs %d' % (len(ra), len(rb))
+    taint = False
+    prev_p = None
     for i, (a, b) in enumerate(zip(ra, rb)):
+        if long_lived and a != 'stopped':
+            da0 = parse_rec(a)
+            if taint and da0.get('p') != prev_p:
+                taint = False
+            skip = {'o', 'f'} if taint else set()
+            if da0.get('f') == 'err':
+                taint = True
+            prev_p = da0.get('p')
+        else:
+            skip = set()
         if a == 'stopped' or b == 'stopped':
             if a != b:
                 return 'request %d: %s vs %s' % (i, a[:40], b[:40])
@@ -50,6 +69,8 @@ def compare_lines(impl, model, keys):
             return None  # model ran out of fuel: not comparable (counted by the caller)
         e = db.get('e', '0')
         for k in keys:
+            if k in skip:
+                continue
             va, vb = da.get(k), db.get(k)
             if k == 'o':
                 if e == '2':
